@@ -186,7 +186,7 @@ def run(ctx):
     # the command is really run (file-creating script through Submitter) on every replayed case in quick,
     # on a seeded subset in thorough; Job.inputs is observed on every case
     runnable = [i for i, c in enumerate(todo) if c["run"]]
-    with_run = set(runnable if len(runnable) <= 5000 else ctx.rng.sample(runnable, 5000))
+    with_run = set(runnable if len(runnable) <= 3000 else ctx.rng.sample(runnable, 3000))
     obs = core.pmap(observe, [(c, i in with_run) for i, c in enumerate(todo)], chunksize=4)
 
     lines = [{"id": i, "c": case["c"], "obs": o} for i, (case, o) in enumerate(zip(todo, obs))]
